@@ -1,7 +1,6 @@
 import SunriseVerif.Lemmas.Dec
 import SunriseVerif.Gen.KernelsCL
 import SunriseVerif.Gen.KernelsSwap
-import SunriseVerif.Props.C02Kernel
 import Mathlib.Tactic.Linarith
 import Mathlib.Tactic.NormNum
 /-!
@@ -76,10 +75,31 @@ theorem mulTruncate_bd (a b : Dec) (A B : Int) (ha : 0 ≤ a.raw) (hb : 0 ≤ b.
   rw [Int.mul_comm] at this
   omega
 
+/-- integer form of the `Quo` bound (`Quo` = half-even rounding of the quotient truncated at 36 decimals); same statement as
+    `C02Kernel.quo_int_bounds`, repeated here so that this module depends on the regenerated kernels only -/
+theorem quo_int_bounds (x d : Dec) (hx : 0 ≤ x.raw) (hd : 0 < d.raw) :
+    PREC * (Dec.quo x d).raw * d.raw ≤ x.raw * PREC * PREC + HALF * d.raw
+    ∧ x.raw * PREC * PREC < PREC * (Dec.quo x d).raw * d.raw + HALF * d.raw + d.raw
+    ∧ 0 ≤ (Dec.quo x d).raw := by
+  have hn : 0 ≤ x.raw * PREC * PREC := Int.mul_nonneg (Int.mul_nonneg hx (by decide)) (by decide)
+  unfold Dec.quo
+  simp only [tquo_nonneg_eq hn (Int.le_of_lt hd)]
+  generalize hN : x.raw * PREC * PREC = N at hn ⊢
+  have hT0 : 0 ≤ N / d.raw := Int.ediv_nonneg hn (Int.le_of_lt hd)
+  have hm := Int.emod_nonneg N (Int.ne_of_gt hd)
+  have hm2 := Int.emod_lt_of_pos N hd
+  have hdm := Int.mul_ediv_add_emod N d.raw
+  have hR := chopRound_nonneg_bounds (N / d.raw) hT0
+  generalize N / d.raw = T at *
+  generalize chopRound T = R at *
+  have e1 : PREC * R * d.raw ≤ (T + HALF) * d.raw := Int.mul_le_mul_of_nonneg_right hR.1 (Int.le_of_lt hd)
+  have e2 : T * d.raw ≤ (PREC * R + HALF) * d.raw := Int.mul_le_mul_of_nonneg_right hR.2.1 (Int.le_of_lt hd)
+  refine ⟨?_, ?_, hR.2.2⟩ <;> nlinarith
+
 /-- relational bound of `Quo`: if `x·10^18 ≤ d·M` then `x/d ≤ M` (non-negative `x`, positive `d`) -/
 theorem quo_rel (x d : Dec) (M : Int) (hx : 0 ≤ x.raw) (hd : 0 < d.raw) (hM : x.raw * PREC ≤ d.raw * M) :
     0 ≤ (Dec.quo x d).raw ∧ (Dec.quo x d).raw ≤ M := by
-  have h := C02Kernel.quo_int_bounds x d hx hd
+  have h := quo_int_bounds x d hx hd
   refine ⟨h.2.2, ?_⟩
   by_contra hc
   have hc' : M + 1 ≤ (Dec.quo x d).raw := by omega
